@@ -233,7 +233,12 @@ def run_case_concrete(contract, case, values):
         out = Outcome(value=f(*args, **kwargs))
     except Exception as e:
         out = Outcome(exc=e)
-    conds = contract.post(case, ghost, out)
+    try:
+        conds = contract.post(case, ghost, out)
+    except Rejected as e:
+        # the specification itself is undefined for this sample (e.g. the expected wall clock falls
+        # into a repeated or skipped hour of a real zone: outside the property's quantifier)
+        return {"rejected": str(e)}
     res = {}
     for k, v in conds.items():
         res[k] = bool(v)
